@@ -36,6 +36,17 @@ if ! cmp -s $V/build/Kern.v.new $V/coq/gen/Kern.v; then
   echo "Kern.v changed"
 fi
 [ $krc = 0 ] || { echo "go2coq: some kernels could not be translated:"; cat $V/build/go2coq.err; }
+# whole functions with loops and slice accesses, translated to the imperative language of coq/lib/Imp.v (go2coq -prog)
+if [ $V/tools/go2coq/prog.go -nt $V/build/go2coq ]; then
+  (cd $V/tools/go2coq && go1.26 build -o $V/build/go2coq .)
+fi
+cat $V/tools/go2coq/progs.txt $(ls $V/tools/go2coq/progs.d/*.txt 2>/dev/null) > $V/build/prog.spec
+$V/build/go2coq -prog $V/build/prog.spec > $V/build/Prog.v.new 2> $V/build/go2imp.err || krc=1
+if ! cmp -s $V/build/Prog.v.new $V/coq/gen/Prog.v; then
+  cp $V/build/Prog.v.new $V/coq/gen/Prog.v
+  echo "Prog.v changed"
+fi
+[ -s $V/build/go2imp.err ] && { echo "go2coq -prog: some functions could not be translated:"; cat $V/build/go2imp.err; }
 # coq/lib (Kern.v uses GVL.Wrap)
 ( cd $V/coq/lib && { [ -f Makefile ] || coq_makefile -f _CoqProject -o Makefile >/dev/null 2>&1; } && timeout 900 make >/dev/null 2>&1 ) || { echo "coq/lib build failed"; exit 1; }
 cd $V/coq/gen
